@@ -112,8 +112,12 @@ def project_events(ev):
             cur["iters"].append(f)
             out.append({"ev": "iter", "_ref": (len(stages) - 1, len(cur["iters"]) - 1)})
         elif name == "stage_end":
+            # the iteration limit the documented option of this stage resolves to (from the call's resolved options);
+            # -1 for scripted driver runs, which have no call event
+            optname = {"hydraulics": "max_iter_hyd", "heat": "max_iter_therm", "bidirectional": "max_iter_bidirect"}.get(str(f["stage"]))
+            want = int(options[optname]) if (options and optname in options) else -1
             out.append({"ev": "stage_end", "stage": f["stage"], "niter": int(f["niter"]),
-                        "maxiter": int(f["max_iter"]), "converged": bool(f["converged"])})
+                        "maxiter": int(f["max_iter"]), "optiter": want, "converged": bool(f["converged"])})
             cur = None
     # ordinals
     for s in stages:
@@ -140,6 +144,7 @@ def project_events(ev):
             e.update({"stage": f["stage"], "niter": int(f["niter"]), "method": str(f["method"]),
                       "errs": [s["ords"][v][ii] for v in range(len(s["ords"]))], "res": s["ro"][ii],
                       "alpha_used_is1": bool(f["alpha_used"] == 1), "alpha_next_is1": bool(f["alpha_next"] == 1),
+                      "res_nan": bool(f.get("residual_nan") or False),
                       "converged": bool(f["converged"])})
     return out
 
@@ -246,7 +251,7 @@ def gen_hist(consts, simulate=None, depth=None, seed=0, timeout=900):
 
 
 HIST_CONSTS = {"Modes": '= {"hydraulics", "sequential", "bidirectional", "heat"}',
-               "Budgets": '= {"ample", "starved"}', "Methods": '= {"constant", "automatic"}', "TolSets": '= {"default", "split", "split2"}', "Matrix": '= {"plain"}', "EditOps": "= {}"}
+               "Budgets": '= {"ample", "starved", "hydstarved", "thermstarved", "bistarved"}', "Methods": '= {"constant", "automatic"}', "TolSets": '= {"default", "split", "split2"}', "Matrix": '= {"plain"}', "EditOps": "= {}"}
 
 
 def main():
@@ -287,6 +292,9 @@ def main():
         hs = hs + hs4
     hjobs = [{"id": "%s%d" % (n[0], i), "net": n, "hist": h} for i, h in enumerate(hs)
              for n in ("heating_loop", "branched")]
+    # a net whose thermal problem has no solution (source at a dead end): every thermal mode must fail, never return
+    hjobs += [{"id": "x%d" % i, "net": "deadend", "hist": h} for i, h in enumerate(hs[:: 4])]
+    hjobs += [{"id": "y%d" % i, "net": "p_only", "hist": h} for i, h in enumerate(hs[1:: 4])]
     hjobs += [{"id": "%s%d" % (n[0], i), "net": n, "hist": h} for i, h in enumerate(hs) for n in ("gas", "versatility")
               if all(o["op"] != "run" or o["mode"] == "hydraulics" for o in h)]
     hres = core.pmap(replay_history, hjobs, chunksize=8)
